@@ -10,11 +10,11 @@ open World
 variable {α : Type}
 
 def teardownHeader : List (Tok α) :=
-  [Tok.lit "Sequence expectations not met at destruction of sequence object \"", Tok.seqName, Tok.lit "\":"]
+  [Tok.key "teardown", Tok.seqName, Tok.text]
 
 /-- the text of the sequence-teardown report: every pending handle, in list order. -/
 def teardownText (l : List α) : List (Tok α) :=
-  teardownHeader ++ l.flatMap (fun m => [Tok.lit "\n  missing ", Tok.expectation m]) ++ [Tok.lit "\n"]
+  teardownHeader ++ l.flatMap (fun m => [Tok.key "missing", Tok.expectation m]) ++ [Tok.text]
 
 theorem seq_dtor_eq (l r : List α) :
     Cxx.seq_dtor l r = (if l.isEmpty then none else some (Sev.nonfatal, teardownText l), [], []) := by
@@ -25,7 +25,7 @@ theorem seq_dtor_eq (l r : List α) :
     (fun l (st : List α × Bool × List (Tok α)) =>
       (([] : List α), (st.2.1 || !l.isEmpty),
         st.2.2 ++ (if !st.2.1 && !l.isEmpty then teardownHeader else []) ++
-          l.flatMap (fun m => [Tok.lit "\n  missing ", Tok.expectation m])))
+          l.flatMap (fun m => [Tok.key "missing", Tok.expectation m])))
     (fun (st : List α × Bool × List (Tok α)) => st)
   generalize hres : runLoop _ l (l, false, []) = res
   have h := key _ ?_ ?_ l _ res rfl hres
